@@ -149,6 +149,8 @@ def readAll (cols : List Col) (dc : Decomp) (file : Bytes) : String :=
         | .ok (false, st) => (if st.err then "err" else "ok", k, recs)
         | .ok (true, st) =>
           if st.err then loop fuel st (k+1) (recs ++ ["-"]) else
+          -- `Scan` calls a method on a nil `Field` when no row group was ever loaded
+          if !st.fieldsSet ∧ !st.cols.isEmpty then ("panic", k + 1, recs) else
           match scanAll st.cols st.bufs with
           | none => ("panic", k + 1, recs)
           | some (t, bufs) => loop fuel { st with bufs := bufs } (k+1) (recs ++ [t])
